@@ -31,8 +31,9 @@ theorem spec_findAll_length (q : Query) (coll : Spec.Coll) (hs : q.skip = 0) (hl
     exact (List.mergeSort_perm _ _).length_eq
 
 /-- Planner soundness (shared with C02): the index range never excludes a satisfying document. -/
-theorem planner_never_drops {V : Type} (O : Pl.VOrd V) (d : Pl.Doc V) (f : Pl.Field) (c : Pl.Crit V)
-    (h : Pl.sat O d c = true) : Pl.covers O (Pl.fieldRange O f (Pl.flatten c)) (d.get f) = true :=
-  C02.planner_sound O d f c h
+theorem planner_never_drops (d : Doc) (hd : AllNumKV numOK d) (c : Crit) (hc : CritOK c) (f : Bytes)
+    (h : sat likeFn fnFam d c = true) :
+    ∀ r, fieldRange f (flatten c) = some r → Pl.inScan vord r.abs (d.get f) = true :=
+  C02.planner_sound likeFn fnFam d hd c hc f h
 
 end CV.Props.C01
